@@ -208,6 +208,10 @@ class ConnProfile(FsmProfile):
             cfg["p_hfail"] = rng.pick([0.03, 0.08, 0.2])
             cfg["hfail_only"] = ["on_update_error", "update_received", "keepalive_received", "open_received",
                                  "route_refresh_received", "notification_received"]
+        if rng.chance(0.12):
+            # Adj-RIB maintenance on, for a family list with or without ipv4
+            cfg["rib"] = True
+            cfg["afi_safi"] = rng.pick([["ipv4"], ["flowspec"], ["ipv6", "flowspec"], ["ipv4", "flowspec"]])
         return cfg
 
 
@@ -516,6 +520,7 @@ class HealCtx(FsmCtx):
         self.op_stopped = False
         self.stopped_at_switch = False
         self.peer_expired = set()
+        self.unsigned_at_switch = set()
 
     # ---- generation
     def choose(self, rng):
@@ -528,7 +533,10 @@ class HealCtx(FsmCtx):
                 op = FsmCtx.choose(self, rng)
                 if op is not None:
                     return op
-            if self.model.stopped or self.stopped_by_rest():
+            if (self.model.stopped or self.stopped_by_rest()) and getattr(self, "gen_starts", 0) < 3:
+                # (an agent whose manual-start no longer works is not asked for ever: the run then switches with the
+                # operator's stop in force and is not judged for healing)
+                self.gen_starts = getattr(self, "gen_starts", 0) + 1
                 return ["rest", "GET", URL + "manual-start", "ok"]
             return ["coop"]
         return None      # the cooperative phase is not generated: see auto_op()
@@ -577,8 +585,15 @@ class HealCtx(FsmCtx):
                 if cfg.get("late_cdone") and c.cid < self.first_coop_cid and self.t_estab is not None:
                     self.stats["gen:close_of_old_connection_completes_after_recovery"] += 1
                 return ["cdone", k]
-        # 3. pending connects are accepted within one second
+        # 3. pending connects are accepted within one second - with TCP-MD5 configured only if the attempt's
+        # socket carries the key: the peer's stack drops unsigned SYNs without an answer (an unsigned attempt left
+        # over from the adversarial phase, where setsockopt may have failed, is reset instead: the last hostile act)
         for k, c in enumerate(live):
+            if c.state == "connecting" and cfg.get("md5") and not self.signed(c):
+                if c.cid < self.first_coop_cid or c.cid in self.unsigned_at_switch:
+                    return ["conn_refuse", k]
+                self.stats["unsigned_attempt_ignored_by_peer"] += 1
+                continue
             if c.state == "connecting":
                 dl = c.t_connect + cfg["connect_latency"]
                 if now >= dl - EPS:
@@ -603,7 +618,10 @@ class HealCtx(FsmCtx):
                     if rej:
                         self.rejected = rej
                         return ["send", k, rp.encode_notification(*rej).hex(), []]
-                    return ["send", k, cfg["peer_open"], []]
+                    cut = cfg.get("coop_cut")
+                    n = len(cfg["peer_open"]) // 2
+                    # (some cooperative peers' OPEN reaches the agent in two TCP segments)
+                    return ["send", k, cfg["peer_open"], [min(cut, n - 1)] if cut else []]
                 if types.count(rp.KEEPALIVE) >= 1 and c.cid in self.sent_open and c.cid not in self.sent_ka:
                     self.sent_ka.add(c.cid)
                     self.peer_ka_at[c.cid] = now
@@ -648,6 +666,11 @@ class HealCtx(FsmCtx):
             return None
         return ["fire", 0]
 
+    @staticmethod
+    def signed(c):
+        tr = c.c.transport
+        return bool(tr is not None and getattr(tr, "sock", None) is not None and tr.sock.sockopts)
+
     def end_time(self):
         if self.t_estab is None:
             return None
@@ -681,9 +704,12 @@ class HealCtx(FsmCtx):
             w.take_sockfail()               # ... and so does setsockopt
             self.first_coop_cid = len(w.conns)
             # a pending attempt of the adversarial phase is simply answered by the now cooperative peer
+            self.unsigned_at_switch = set()
             for c in w.live_conns():
                 if c.state == "connecting":
                     self.first_coop_cid = min(self.first_coop_cid, c.cid)
+                    if self.cfg.get("md5") and not self.signed(c):
+                        self.unsigned_at_switch.add(c.cid)
             self.boot_left = 0.0
             if not any(e[2] == "connect" for e in w.log):
                 self.boot_left = max(0.0, self.cfg["call_later"] - w.now())
@@ -801,6 +827,7 @@ class HealProfile(FsmProfile):
         cfg["connect_latency"] = rng.pick([0.0, 0.1, 1.0])
         cfg["dead_old_connection"] = rng.chance(0.3)
         cfg["late_cdone"] = rng.chance(0.3)
+        cfg["coop_cut"] = rng.pick([None, None, None, None, 1, 19, 30, 45])
         if rng.chance(0.08):
             # an IPv6 peering (local and remote address); the BGP identifier cannot be derived from the address
             cfg["local_addr"], cfg["remote_addr"] = "2001:db8::1", "2001:db8::2"
